@@ -23,7 +23,7 @@ TEXT = {
  "C10": ("NewStore executed symbolically with declared names (duplicates, empty), every kind of cache content, a failing/recovering service and an ending context: values for all declared names with provenance, no refetch, capped doubling back-off, prompt error after the context ends, file-client and misconfiguration cases.",
          "2 (quick) / 3 names; at most 2/3 failing requests; real timers replaced by a recorded sleep list."),
  "C11": ("One Refresh (poll + applyUpdates + flush) from an arbitrary store state against an arbitrary service state with per-request faults: convergence by version number, failed poll applies nothing, single-flight under a constant key, cache holds the post-state.",
-         "2/3 names; the +-10% ticker jitter arithmetic and real tickers are not part of this harness; interleavings within one poll are represented by the arbitrary service state."),
+         "2/3 names; the +-10% jitter arithmetic is decided for 5 ns <= interval < 2^62 ns (cvc5 integer encoding); real tickers are outside; interleavings within one poll are represented by the arbitrary service state and a caller that may give up between two requests."),
  "C12": ("Invariant J and lock-set obligations over applyUpdates (arbitrary update set), handle reads, lookups and polls: handles never lose their name, values replaced never mutated, no request under the lock, lock released on every path.",
          "Sequential + lock-discipline formulation; interleavings and the race detector are outside (single-mutex reduction is trusted reasoning)."),
  "C13": ("Flush sites (initial fetch, poll, lookup, shutdown) hand Cache.Write the whole active set; restart from any cache document; arbitrary/unreadable cache never fatal; FileCache.Write = real atomicfile over the FS model with faults and kills; NewFileClient reads the same document with identical results.",
